@@ -114,7 +114,17 @@ func (i *interpreter) trimSpace(s value) (value, value, value) {
 			case string:
 				return stringInClass(sg, "asciiws")
 			case *Sym:
-				return p.facts["class|asciiws|"+sg.e]
+				if p.facts["class|asciiws|"+sg.e] {
+					return true
+				}
+				if a, ok := p.alpha[sg.e]; ok {
+					for b := 0; b < 256; b++ {
+						if a[b] && !(b >= 9 && b <= 13 || b == ' ') {
+							return false
+						}
+					}
+					return true
+				}
 			}
 			return false
 		}
